@@ -1,6 +1,7 @@
 INIT Init
 NEXT Next
 CONSTANTS
+  Mutation = "none"
   NMol = 1
   NJobs = 2
   Pipelines = {"single", "multi"}
